@@ -136,6 +136,8 @@ class Cluster:
                     return 1, "", f"{exe}: error: simulated failure\n"
                 if f.kind == "F2":
                     return 0, "", f"{exe}: error: Invalid job id specified\n"
+                if f.kind == "F4":  # fails silently: non-zero exit, nothing on stderr
+                    return 1, f"{exe}: could not complete the request\n", ""
                 if f.kind == "F3":
                     return 0, "garbage ###\n", ""
         handler = getattr(self, f"_{self.flavour}_{exe}", None)
